@@ -26,7 +26,13 @@ import (
 // resources while waiting for its prerequisite would deadlock), and two
 // bodies are inside together only if every common resource is read-only for
 // both.
-func ZZVerifC15RunnerLocks() {
+func ZZVerifC15RunnerLocks() { zzRunnerLocks("C15") }
+
+// ZZVerifC14Locks: the same scenario for C14's clause "every accepted
+// submission eventually finishes": tasks with wait lists AND resource locks.
+func ZZVerifC14Locks() { zzRunnerLocks("C14") }
+
+func zzRunnerLocks(prop string) {
 	nd.Schedule(nd.Param("RP", 1))
 	nd.Races()
 	trace := &zzTrace{}
@@ -63,8 +69,8 @@ func ZZVerifC15RunnerLocks() {
 	}
 	// the outside holder has q for writing before anything is submitted
 	outside := sm.Lock(commservices.LockMap{"q": commservices.LockRW})
-	nd.Assert(r.Run(mk(0, nil)) == nil, "C15/runner-accepts")
-	nd.Assert(r.Run(mk(1, []string{"t0"})) == nil, "C15/runner-accepts")
+	nd.Assert(r.Run(mk(0, nil)) == nil, prop+"/runner-accepts")
+	nd.Assert(r.Run(mk(1, []string{"t0"})) == nil, prop+"/runner-accepts")
 	var wg sync.WaitGroup
 	wg.Add(1)
 	go func() {
@@ -73,10 +79,10 @@ func ZZVerifC15RunnerLocks() {
 		outside.Unlock()
 	}()
 	mgr, err := unit.FromScope(scp)
-	nd.Assert(err == nil, "C15/runner-manager")
-	nd.Assert(mgr.Wait() == nil, "C15/runner-all-tasks-finish")
+	nd.Assert(err == nil, prop+"/runner-manager")
+	nd.Assert(mgr.Wait() == nil, prop+"/runner-all-tasks-finish")
 	wg.Wait()
 	b0, e0, b1 := trace.index("bt0"), trace.index("et0"), trace.index("bt1")
-	nd.Assert(b0 >= 0 && e0 > b0 && b1 > e0, "C15/runner-both-bodies-ran-in-wait-order")
-	nd.Reach("C15/runner-end")
+	nd.Assert(b0 >= 0 && e0 > b0 && b1 > e0, prop+"/runner-both-bodies-ran-in-wait-order")
+	nd.Reach(prop+"/runner-end")
 }
